@@ -63,6 +63,13 @@ class disjoint_set_impl {
     pthis.check(m_comm);
   }
 
+  disjoint_set_impl(const self_type &rhs) : m_comm(rhs.m_comm), pthis(this) {
+    // Unions still in flight to rhs belong to the contents being copied
+    m_comm.barrier();
+    m_local_item_parent_map = rhs.m_local_item_parent_map;
+    pthis.check(m_comm);
+  }
+
   ~disjoint_set_impl() { m_comm.barrier(); }
 
   typename ygm::ygm_ptr<self_type> get_ygm_ptr() const { return pthis; }
